@@ -2,7 +2,7 @@
    Property theorems only; proofs live in Page.v / Walk.v / PageMore.v. *)
 From Coq Require Import List Arith Lia Bool ZArith.
 Import ListNotations.
-From GB Require Import Page Walk PageBack.
+From GB Require Import Page Walk PageBack PageWindow.
 
 Theorem C20_forward_page n k o : 0 < k -> o <= n ->
   fwd n k (match o with 0 => None | S o' => Some o' end) =
@@ -40,3 +40,13 @@ Print Assumptions C20_foreign_cursors_ignored.
 Theorem C20_total n i p : paginate n i = Ok p -> p_total p = n.
 Proof. exact (total_is_length n i p). Qed.
 Print Assumptions C20_total.
+
+(* whatever after / before / first / last are given, a page is a contiguous run of the list that lies inside the
+   requested window: strictly after the `after` cursor, strictly before the `before` cursor *)
+Theorem C20_window n i p : paginate n i = Ok p ->
+  exists lo len, p_items p = seq lo len /\ lo + len <= n /\
+    (forall a, i_after i = Some (Off a) -> a < n -> a < lo) /\
+    (forall a b, i_after i = Some (Off a) \/ i_after i = None -> i_before i = Some (Off b) -> b < n ->
+                 (match i_after i with Some (Off a') => a' < b | _ => True end) -> lo + len <= b).
+Proof. exact (page_window n i p). Qed.
+Print Assumptions C20_window.
